@@ -1627,12 +1627,24 @@ fn part_tt(case_seed: u64, r: &mut Report) {
         return;
     }
     let true_rank = 1 + rng.below((cfg.max_rank / 2).max(1).min(4));
-    let (scale, scale_class) = match rng.below(8) {
-        0 => (1e-3, "norm-1e-3"),
-        1 => (1e3, "norm-1e3"),
-        2 => (1e-12, "norm-1e-12"),
-        3 => (1e12, "norm-1e12"),
-        _ => (1.0, "unit-norm"),
+    // norm classes: the historical powers of ten, and magnitude classes across the finite f32 range.
+    // The magnitude classes scale the unit-norm vector by an exact power of two (2^-100 ~ 8e-31,
+    // 2^-80 ~ 8e-25, 2^-63 ~ 1e-19, 2^63 ~ 9e18, 2^83 ~ 1e25, 2^100 ~ 1.3e30), so the scaled input is
+    // the same vector bit for bit up to the exponent and its norm stays a finite f32. The documented
+    // bound is relative, hence scale-free: the unit-norm twin is decomposed as well and a failure that
+    // only the scaled input shows gets its own signature.
+    let (scale, scale_class, pow2): (f64, &str, Option<i32>) = match rng.below(14) {
+        0 => (1e-3, "norm-1e-3", None),
+        1 => (1e3, "norm-1e3", None),
+        2 => (1e-12, "norm-1e-12", None),
+        3 => (1e12, "norm-1e12", None),
+        4 => (2f64.powi(-100), "norm-2^-100", Some(-100)),
+        5 => (2f64.powi(-80), "norm-2^-80", Some(-80)),
+        6 => (2f64.powi(-63), "norm-2^-63", Some(-63)),
+        7 => (2f64.powi(63), "norm-2^63", Some(63)),
+        8 => (2f64.powi(83), "norm-2^83", Some(83)),
+        9 => (2f64.powi(100), "norm-2^100", Some(100)),
+        _ => (1.0, "unit-norm", None),
     };
     let mut v64 = if class <= 2 {
         // smooth signals have low TT-rank (sum of two sinusoids: rank <= 4)
@@ -1647,49 +1659,116 @@ fn part_tt(case_seed: u64, r: &mut Report) {
         return;
     }
     for x in v64.iter_mut() {
-        *x = *x / norm * scale;
+        *x /= norm;
     }
-    let v: Vec<f32> = v64.iter().map(|&x| x as f32).collect();
-    let (res, _) = measured(|| tt_decompose(&v, &cfg).map(|tt| (tt_reconstruct(&tt), tt.ranks.clone())));
-    let (rec, ranks) = match res {
-        Err(p) => {
-            r.violation(format!("tt:panic:{}", first_line(&p)), format!("dim {} {} scale {}: {}", dim, preset, scale, p), replay);
-            return;
+    enum Out {
+        Panic(String),
+        Rejected(String),
+        BadLen(usize),
+        Capped,
+        Done { rel: f64, ranks: Vec<usize> },
+    }
+    let run = |v: &[f32]| -> Out {
+        let (res, _) = measured(|| tt_decompose(v, &cfg).map(|tt| (tt_reconstruct(&tt), tt.ranks.clone())));
+        let (rec, ranks) = match res {
+            Err(p) => return Out::Panic(p),
+            Ok(Err(e)) => return Out::Rejected(e.to_string()),
+            Ok(Ok(x)) => x,
+        };
+        if rec.len() != v.len() {
+            return Out::BadLen(rec.len());
         }
-        Ok(Err(e)) => {
-            r.violation(if scale < 1.0 { "tt:valid-input-rejected:small-norm" } else { "tt:valid-input-rejected" }, format!("tt_decompose failed on a finite {}-dim vector ({}, scale {}): {}", dim, preset, scale, e), replay);
-            return;
+        if ranks.iter().copied().max().unwrap_or(1) >= cfg.max_rank {
+            return Out::Capped;
         }
-        Ok(Ok(x)) => x,
+        let vn = v.iter().map(|&x| (x as f64) * (x as f64)).sum::<f64>().sqrt();
+        let en = v.iter().zip(&rec).map(|(&a, &b)| (a as f64 - b as f64).powi(2)).sum::<f64>().sqrt();
+        Out::Done { rel: en / vn, ranks }
     };
-    if rec.len() != v.len() {
-        r.violation("tt:reconstruct-length", format!("dim {} reconstructed to {}", dim, rec.len()), replay);
-        return;
-    }
-    if ranks.iter().copied().max().unwrap_or(1) >= cfg.max_rank {
-        // no bound is documented when the rank cap limits the approximation
-        r.count("tt_rank_capped", 1);
-        r.inconclusive("tt: returned ranks reach max_rank (no documented bound)");
-        return;
-    }
-    let vn = v.iter().map(|&x| (x as f64) * (x as f64)).sum::<f64>().sqrt();
-    let en = v.iter().zip(&rec).map(|(&a, &b)| (a as f64 - b as f64).powi(2)).sum::<f64>().sqrt();
-    let rel = en / vn;
-    r.count(&format!("tt[{}:{}]", preset, scale_class), 1);
+    let rank_note = true_rank.max(if class <= 2 { 4 } else { 0 });
+    // the input actually judged by the historical path: unit-norm twin for the magnitude classes
+    let (v, jscale, jclass): (Vec<f32>, f64, &str) = if pow2.is_some() { (v64.iter().map(|&x| x as f32).collect(), 1.0, "unit-norm") } else { (v64.iter().map(|&x| (x * scale) as f32).collect(), scale, scale_class) };
+    let (rel, ranks) = match run(&v) {
+        Out::Panic(p) => {
+            r.violation(format!("tt:panic:{}", first_line(&p)), format!("dim {} {} scale {}: {}", dim, preset, jscale, p), replay);
+            return;
+        }
+        Out::Rejected(e) => {
+            r.violation(if jscale < 1.0 { "tt:valid-input-rejected:small-norm" } else { "tt:valid-input-rejected" }, format!("tt_decompose failed on a finite {}-dim vector ({}, scale {}): {}", dim, preset, jscale, e), replay);
+            return;
+        }
+        Out::BadLen(n) => {
+            r.violation("tt:reconstruct-length", format!("dim {} reconstructed to {}", dim, n), replay);
+            return;
+        }
+        Out::Capped => {
+            // no bound is documented when the rank cap limits the approximation
+            r.count("tt_rank_capped", 1);
+            r.inconclusive("tt: returned ranks reach max_rank (no documented bound)");
+            return;
+        }
+        Out::Done { rel, ranks } => (rel, ranks),
+    };
+    r.count(&format!("tt[{}:{}]", preset, jclass), 1);
     r.count_max("max:tt_rel_error_ppm", (rel * 1e6) as u64);
     if !(rel <= bound) {
         r.violation(
             // small-norm = far off on an input of norm < 1 (the scale-dependent failure: absolute
             // thresholds in decompose.rs); svd-accuracy = everything else (rare, any norm)
-            format!("tt:error-above-documented-bound:{}:{}", preset, if scale < 1.0 && rel > 5.0 * bound { "small-norm" } else { "svd-accuracy" }),
-            format!("dim {} shape {:?} preset {} (max_rank {}, tol {}), input of TT-rank <= {} and norm {:e}: returned ranks {:?} (below the cap) but relative L2 error {:.4} > {}", dim, cfg.shape, preset, cfg.max_rank, cfg.tolerance, true_rank.max(if class <= 2 { 4 } else { 0 }), scale, ranks, rel, bound),
+            format!("tt:error-above-documented-bound:{}:{}", preset, if jscale < 1.0 && rel > 5.0 * bound { "small-norm" } else { "svd-accuracy" }),
+            format!("dim {} shape {:?} preset {} (max_rank {}, tol {}), input of TT-rank <= {} and norm {:e}: returned ranks {:?} (below the cap) but relative L2 error {:.4} > {}", dim, cfg.shape, preset, cfg.max_rank, cfg.tolerance, rank_note, jscale, ranks, rel, bound),
             replay,
         );
         return;
     }
-    r.eval(hash_str(&bits32(&v[..v.len().min(64)])), true);
+    // magnitude classes: the same vector times 2^k must meet the same relative bound
+    let mut mag_rel: Option<f64> = None;
+    if let Some(k) = pow2 {
+        let f = 2f32.powi(k);
+        let vs: Vec<f32> = v.iter().map(|&x| x * f).collect();
+        // exact scaling only (an element pushed into the denormal range would lose bits)
+        if vs.iter().zip(&v).all(|(&a, &b)| a.is_finite() && a / f == b) {
+            let mag = if k < 0 { "tiny-magnitude" } else { "huge-magnitude" };
+            let ctx = format!("dim {} shape {:?} preset {} (max_rank {}, tol {}), input of TT-rank <= {} scaled by 2^{} (norm {:e}, components up to {:e}); the unit-norm twin decomposes with ranks {:?} and relative L2 error {:.5}", dim, cfg.shape, preset, cfg.max_rank, cfg.tolerance, rank_note, k, scale, vs.iter().fold(0f32, |m, x| m.max(x.abs())), ranks, rel);
+            match run(&vs) {
+                Out::Panic(p) => {
+                    r.violation(format!("tt:panic:{}", first_line(&p)), format!("{}: {}", ctx, p), replay);
+                    return;
+                }
+                Out::Rejected(e) => {
+                    r.violation(format!("tt:valid-input-rejected:{}", mag), format!("{}; the scaled input is rejected: {}", ctx, e), replay);
+                    return;
+                }
+                Out::BadLen(n) => {
+                    r.violation("tt:reconstruct-length", format!("{}: reconstructed to {}", ctx, n), replay);
+                    return;
+                }
+                Out::Capped => {
+                    // consistent with the unit-norm rule: no bound is documented once the cap is reached
+                    r.count(&format!("tt_rank_capped_only_at[{}]", scale_class), 1);
+                    r.inconclusive("tt: ranks reach max_rank at extreme magnitude only (no documented bound)");
+                    return;
+                }
+                Out::Done { rel: srel, ranks: sranks } => {
+                    r.count(&format!("tt[{}:{}]", preset, scale_class), 1);
+                    if !(srel <= bound) {
+                        r.violation(
+                            format!("tt:error-above-documented-bound:{}:{}", preset, mag),
+                            format!("{}; scaled: ranks {:?} (below the cap) but relative L2 error {:.4} > {}", ctx, sranks, srel, bound),
+                            replay,
+                        );
+                        return;
+                    }
+                    mag_rel = Some(srel);
+                }
+            }
+        } else {
+            r.count("tt_magnitude_scaling_inexact_skipped", 1);
+        }
+    }
+    r.eval(hash_str(&bits32(&v[..v.len().min(64)])) ^ hash_str(scale_class), true);
     if r.want_sample() {
-        r.sample(json!({"part": "tt", "dim": dim, "preset": preset, "input_tt_rank": true_rank, "scale": scale, "returned_ranks": ranks, "relative_l2_error": rel}));
+        r.sample(json!({"part": "tt", "dim": dim, "preset": preset, "input_tt_rank": true_rank, "scale": jscale, "returned_ranks": ranks, "relative_l2_error": rel, "magnitude_class": if pow2.is_some() { scale_class } else { "-" }, "relative_l2_error_at_magnitude": mag_rel}));
     }
 }
 
